@@ -1,5 +1,5 @@
 #!/bin/bash
-# usage: tools_mut.sh <file-in-repo> <python-regex-old> <new> <PID> [only]   (applies, runs check, reverts)
+# usage: tools_mut.sh <file-in-repo> <old> <new> <PID> [only]   (applies, runs check, reverts)
 f=$1; old=$2; new=$3; pid=$4; only=$5
 cd /repo && python3 - "$f" "$old" "$new" <<'PY'
 import sys,re
@@ -12,5 +12,6 @@ open(f,'w').write(s)
 print("mutated 1 of",n,"occurrences")
 PY
 cd /verif
-if [ -n "$only" ]; then ./check $pid --no-evidence --only "$only" 2>&1 | grep -c "^VIOLATION" ; else ./check $pid --no-evidence 2>&1 | grep "^VIOLATION\|^UNDEC\|^CHECKER\|tier=" | sed 's/replay=.*json//' | sort | uniq -c | head -8; fi
+if [ -n "$only" ]; then ./check $pid --no-evidence --only "$only" > .scratch/mut.out 2>&1; else ./check $pid --no-evidence > .scratch/mut.out 2>&1; fi
+grep "^VIOLATION\|^UNDEC\|^CHECKER\|tier=" .scratch/mut.out | sed 's/replay=.*json//' | cut -c1-200 | sort | uniq -c | head -8
 git -C /repo checkout -- . 
